@@ -178,6 +178,8 @@ pub fn check(hdr: &str, lines: &[String], trace: &[(String, Vec<String>)], mon: 
         time: u64,
         op: usize,
         select_ok: bool,
+        /// unicast, accepted master, not a confirm, no header error: can become the "last request"
+        processed: bool,
     }
     let mut delivered: Vec<Delivered> = Vec::new();
     let mut session_start_op = 0usize;
@@ -194,7 +196,7 @@ pub fn check(hdr: &str, lines: &[String], trace: &[(String, Vec<String>)], mon: 
     // ---- C13 state
     let mut restart_cleared = false;
     let mut app_iin: u8 = 0;
-    let mut bc_pending: Option<Option<u8>> = None; // Some(Some(mode)) pending; Some(None) = unknown after silent confirm
+    let mut bc_pending: Option<(u8, bool)> = None; // (mode, certain): uncertain = may already have been reported inside the same op
     // ---- C14 state
     let mut unsol_confirmed_once = false;
     let mut unsol_waiting: Option<u8> = None;
@@ -325,14 +327,23 @@ pub fn check(hdr: &str, lines: &[String], trace: &[(String, Vec<String>)], mon: 
                 let _ = src;
                 if let Some(s) = sel {
                     let between = &delivered[idx + 1..];
-                    let all_repeats = between.iter().all(|d| d.frag == s.frag);
+                    // the immediately preceding fragment is that SELECT or a retransmission of it
+                    let all_repeats = between.last().map(|d| d.frag == s.frag).unwrap_or(true);
                     let fresh = now - s.time <= cfg.stimeout;
                     ok = all_repeats && fresh && s.select_ok && s.op >= session_start_op;
                     if !all_repeats && fresh && s.select_ok {
-                        // D9: the fragment right before the OPERATE is a byte-identical repeat of its predecessor
+                        // D9: the fragment received right before the OPERATE is a byte-identical repeat of
+                        // the last non-confirm fragment before it (RepeatNonRead re-bases the frame id)
                         let n = between.len();
-                        if n >= 2 && between[n - 1].frag == between[n - 2].frag {
-                            repeat_rebase = true;
+                        if n >= 1 {
+                            let last = &between[n - 1];
+                            let upto = delivered.len() - 1;
+                            let prev = delivered[..upto].iter().rev().find(|d| d.processed);
+                            if let Some(p) = prev {
+                                if last.processed && p.frag == last.frag && last.frag != s.frag {
+                                    repeat_rebase = true;
+                                }
+                            }
                         }
                     }
                 }
@@ -501,7 +512,8 @@ pub fn check(hdr: &str, lines: &[String], trace: &[(String, Vec<String>)], mon: 
         }
 
         // ------------------------------------------------------------------ C13
-        if has_cb(outs, "cb clear_restart_iin") {
+        let clear_in_op = has_cb(outs, "cb clear_restart_iin");
+        if clear_in_op {
             restart_cleared = true;
         }
         let repeat_op = match (&frag, &last_processed) {
@@ -514,12 +526,13 @@ pub fn check(hdr: &str, lines: &[String], trace: &[(String, Vec<String>)], mon: 
                 Some(0xFFFE) => 1,
                 _ => 2,
             };
-            bc_pending = Some(Some(mode));
+            // transmissions of this same op may have happened before or after the broadcast was processed
+            bc_pending = Some((mode, t.is_empty()));
         }
         if has_cb(outs, "cb sol_confirmed") || has_cb(outs, "cb unsol_confirmed") {
-            if bc_pending == Some(Some(1)) {
+            if matches!(bc_pending, Some((1, _))) {
                 bc_pending = None;
-            } else if let Some(Some(m)) = bc_pending {
+            } else if let Some((m, true)) = bc_pending {
                 if has_cb(outs, "cb unsol_confirmed") {
                     // known finding D16: accepting an unsolicited confirm drops a pending broadcast
                     // indication of ANY mode although no response has reported it yet
@@ -527,7 +540,7 @@ pub fn check(hdr: &str, lines: &[String], trace: &[(String, Vec<String>)], mon: 
                     bc_pending = None;
                 }
             }
-        } else if func == Some(0) && delivered_now && accepted_master && seq.is_some() && frag.as_ref().map(|f| f.2[0] & 0x10 == 0).unwrap_or(false) && bc_pending == Some(Some(1)) && unsol_waiting.is_some() {
+        } else if func == Some(0) && !herr && delivered_now && accepted_master && seq.is_some() && frag.as_ref().map(|f| f.2[0] & 0x10 == 0).unwrap_or(false) && matches!(bc_pending, Some((1, _))) && unsol_waiting.is_some() {
             // a solicited confirm during the unsolicited wait clears a mandatory broadcast silently
             bc_pending = None;
         }
@@ -538,15 +551,16 @@ pub fn check(hdr: &str, lines: &[String], trace: &[(String, Vec<String>)], mon: 
             }
             let resend = sent_this_session.contains(b) || (repeat_op && func != Some(1));
             if resend && b[2] & 0x01 != 0 {
-                if let Some(Some(m)) = bc_pending {
+                if let Some((m, _)) = bc_pending {
                     if m != 1 {
-                        bc_pending = Some(None);
+                        bc_pending = Some((m, false));
                     }
                 }
             }
             if !resend {
                 let restart = b[2] & 0x80 != 0;
-                if restart == restart_cleared {
+                // within the op that clears the bit a transmission may precede or follow the clearing
+                if restart == restart_cleared && !(clear_in_op && restart) {
                     fail(mon, hdr, "restart_bit_interval", "", &format!("op {k}: iin1 {:02x} cleared={restart_cleared}", b[2]));
                 }
                 let app = ((b[2] >> 4) & 0x07) | (((b[3] >> 5) & 1) << 3);
@@ -554,8 +568,9 @@ pub fn check(hdr: &str, lines: &[String], trace: &[(String, Vec<String>)], mon: 
                     fail(mon, hdr, "app_bits_mirror", "", &format!("op {k}: got {app:04b} want {:04b}", app_iin & 0x0F));
                 }
                 let bc = b[2] & 0x01 != 0;
+                let in_broadcast_op = has_cb(outs, "cb broadcast");
                 match bc_pending {
-                    Some(Some(mode)) => {
+                    Some((mode, true)) if !in_broadcast_op => {
                         if !bc {
                             fail(mon, hdr, "broadcast_bit_rule", "", &format!("op {k}: broadcast bit missing"));
                         }
@@ -566,7 +581,14 @@ pub fn check(hdr: &str, lines: &[String], trace: &[(String, Vec<String>)], mon: 
                             bc_pending = None;
                         }
                     }
-                    Some(None) => bc_pending = None,
+                    Some((mode, _)) => {
+                        // uncertain: either outcome is consistent with the implementation's ordering
+                        if bc && mode == 1 && !in_broadcast_op {
+                            bc_pending = Some((1, true));
+                        } else if !in_broadcast_op {
+                            bc_pending = None;
+                        }
+                    }
                     None => {
                         if bc {
                             fail(mon, hdr, "broadcast_bit_rule", "", &format!("op {k}: broadcast bit without broadcast"));
@@ -578,15 +600,21 @@ pub fn check(hdr: &str, lines: &[String], trace: &[(String, Vec<String>)], mon: 
 
         // ------------------------------------------------------------------ C14
         // DISABLE_UNSOLICITED processed during the wait ends the series silently
-        if unsol_waiting.is_some() && func == Some(21) && delivered_now && accepted_master && !is_bc && !herr && t.iter().any(|x| x.bytes[1] == 0x81) {
+        if unsol_waiting.is_some() && func == Some(21) && delivered_now && accepted_master && !is_bc && !herr && !repeat_op && !a.iter().any(|x| x.contains("malformed")) && t.iter().any(|x| x.bytes[1] == 0x81) {
             if unsol_is_data {
                 not_before = Some(now + cfg.rdelay);
             }
             unsol_waiting = None;
         }
+        let mut disable_in_op = func == Some(21) && delivered_now && accepted_master && !is_bc && !herr && !repeat_op && !a.iter().any(|x| x.contains("malformed"));
         for o in outs {
             if let Some(r) = o.strip_prefix("cb unsol_wait ") {
                 let s: u8 = r.trim().parse().unwrap();
+                if unsol_waiting.is_some() && disable_in_op {
+                    // the DISABLE_UNSOLICITED of this op was handled inside the wait and cancelled it
+                    disable_in_op = false;
+                    unsol_waiting = None;
+                }
                 if unsol_waiting.is_some() {
                     fail(mon, hdr, "one_outstanding", "", &format!("op {k}: new unsolicited {s} while {:?} outstanding", unsol_waiting));
                 }
@@ -662,7 +690,7 @@ pub fn check(hdr: &str, lines: &[String], trace: &[(String, Vec<String>)], mon: 
                         let n = control_items(&f[2..]).unwrap_or(0);
                         !sel.is_empty() && sel.len() == n && sel.iter().all(|o| o.ends_with("-> 0")) && f.len() + 2 <= cfg.sol
                     };
-                delivered.push(Delivered { frag: f.clone(), src: *src, time: now, op: k, select_ok });
+                delivered.push(Delivered { frag: f.clone(), src: *src, time: now, op: k, select_ok, processed: accepted_master && to_us_flag && func != Some(0) && !herr });
                 if accepted_master && to_us_flag && func != Some(0) && !herr {
                     last_processed = Some((k, f.clone()));
                     if func == Some(1) {
